@@ -96,6 +96,55 @@ def build_items(run, tier):
     return items, rejected, native_bad
 
 
+def controlled_items(run, tier):
+    """Gates made with `controlled_by` (one extra control; two for one-qubit classes): either the
+    constructor specialises to a table class (X -> CNOT, RX -> CRX ...), or the gate is outside the
+    documented tables and translate_gate must REPORT AN ERROR -- never return a circuit for another
+    operator.  Whatever is returned is obliged like a table entry (operator up to phase, natives)."""
+    from qibo.transpiler.unroller import translate_gate
+    items = []
+    sets = native_sets()
+    if tier == "quick":
+        sets = [sets[0], sets[2], sets[5], sets[7]]
+    for sname, natives in sets:
+        for name, nq, ps in qtrace.catalogue():
+            for nc in ((1, 2) if nq == 1 else (1,)):
+                if nq + nc > len(PLACE):
+                    continue
+                qs = [PLACE[i] for i in range(nq)]
+                cs = [PLACE[nq + j] for j in range(nc)]
+                n = max(qs + cs) + 1
+                probe_vals = [0.37 + 0.21 * j for j in range(len(ps))]
+
+                def mk(params, _name=name, _qs=qs, _cs=cs):
+                    return qtrace.make_gate(_name, _qs, params).controlled_by(*_cs)
+                try:
+                    g0 = mk(probe_vals)
+                except Exception:
+                    continue                      # class cannot take (more) controls
+                try:
+                    out = translate_gate(g0, natives)
+                    out = out if isinstance(out, list) else [out]
+                except Exception as e:
+                    run.case(["rejected_controlled", sname, name, nc], nontrivial=False)
+                    continue
+                bad = sorted({type(g).__name__ for g in out if not allowed(natives, g)})
+                if bad:
+                    run.refuted.append(f"natives_{sname}_{name}_c{nc}")
+                    run.find(f"natives:{sname}:{name}:c{nc}", f"translate_gate({name}.controlled_by x{nc}) under {sname} returns non-native gates {bad}",
+                             {"native_set": sname, "class": name, "controls": nc, "non_native": bad})
+                else:
+                    run.oblige(f"natives_{sname}_{name}_c{nc}", True, "finite-table")
+
+                def b(params, _mk=mk, _n=n, _nat=natives):
+                    out = translate_gate(_mk(params), _nat)
+                    out = out if isinstance(out, list) else [out]
+                    return out, [_mk(params)], _n
+                items.append(Item(f"translate_{sname}_{name}_c{nc}", f"translate_controlled:{sname}:{name}:c{nc}", len(ps), b,
+                                  meta={"native_set": sname, "class": name, "qubits": qs, "extra_controls": cs}))
+    return items
+
+
 def unitary_test(run, rng, count):
     """tolerance test of the numerical ZYZ/KAK path (not a proof)"""
     from qibo import gates
@@ -137,6 +186,7 @@ def unitary_test(run, rng, count):
         kind = rng.choice(["haar", "diag", "degenerate", "identity", "real_orthogonal"] + (["kron", "named", "real_named"] if d == 4 else []))
         U = rand_u(d, kind)
         updated = (i % 3 == 0)        # matrix replaced after construction (parameters setter), then unrolled
+        ctrl = (i % 5 == 4)           # Unitary(...).controlled_by(c): outside the tables -> must raise, or be right
         sname, natives = sets[i % len(sets)]
         if d == 4 and sname.endswith("CNOT"):
             continue
@@ -147,9 +197,20 @@ def unitary_test(run, rng, count):
                 g.parameters = U
             else:
                 g = gates.Unitary(U, *qs)
-            out = translate_gate(g, natives)
-            A = qtrace.full_unitary(out, 2)
-            B = qtrace.full_unitary([gates.Unitary(U, *qs)], 2)
+            if ctrl:
+                g = g.controlled_by(2)
+                try:
+                    out = translate_gate(g, natives)
+                except Exception:
+                    run.case(["unitary_controlled_rejected", sname, d, i], nontrivial=False)
+                    continue
+                A = qtrace.full_unitary(out, 3)
+                B = qtrace.full_unitary([gates.Unitary(U, *qs).controlled_by(2)], 3)
+                kind = kind + ":controlled"
+            else:
+                out = translate_gate(g, natives)
+                A = qtrace.full_unitary(out, 2)
+                B = qtrace.full_unitary([gates.Unitary(U, *qs)], 2)
             dist = qtrace.phase_distance(A, B)
             nb = [type(g).__name__ for g in out if not allowed(natives, g)]
         except Exception as e:
@@ -250,6 +311,7 @@ def main(run):
     run.notes["rejected_class_set_pairs"] = len(rejected)
     run.notes["rejected_sample"] = rejected[:10]
     tables.run_items(run, items, "C10_tables", rng)
+    tables.run_items(run, controlled_items(run, run.tier), "C10_controlled", rng)
     kak_core(run, rng)
     unitary_test(run, rng, 60 if run.tier == "quick" else 1500)
     return run.finish(rule=RULE)
@@ -259,6 +321,7 @@ def replay(run, data):
     rng = random.Random(0)
     key = data["key"]
     items, rejected, native_bad = build_items(run, "thorough")
+    items = items + controlled_items(run, "thorough")
     for sname, name, bad in native_bad:
         if key == f"natives:{sname}:{name}":
             run.find(key, data["what"], data["replay"])
